@@ -109,6 +109,25 @@ func (t *tnode) needsCfg() bool {
 	return false
 }
 
+// hasStructMap: a map of structs held by value is reachable inside the type.
+// Merging a configured entry into a pre-filled entry of such a map panics in
+// go-ucfg (C07's finding), so plans never let the two sides meet there.
+func (t *tnode) hasStructMap() bool {
+	switch t.k {
+	case kMap:
+		return t.elem.k == kStruct || t.elem.hasStructMap()
+	case kPtr, kSlice, kArray, kIface:
+		return t.elem != nil && t.elem.hasStructMap()
+	case kStruct:
+		for _, f := range t.fields {
+			if f.t.hasStructMap() {
+				return true
+			}
+		}
+	}
+	return false
+}
+
 // ---------------------------------------------------------------------------
 // library struct types as tnodes
 
